@@ -263,6 +263,11 @@ impl Layer {
     pub fn swap_char(&mut self, pos1: impl Into<Position>, pos2: impl Into<Position>) {
         let pos1 = pos1.into();
         let pos2 = pos2.into();
+        let inside = |p: Position| p.x >= 0 && p.y >= 0 && p.x < self.get_width() && p.y < self.get_height();
+        if !inside(pos1) || !inside(pos2) {
+            // there is nothing to swap with: writing the "outside" cell would be dropped and the inside one erased
+            return;
+        }
         let tmp = self.get_char(pos1);
         self.set_char(pos1, self.get_char(pos2));
         self.set_char(pos2, tmp);
